@@ -577,6 +577,18 @@ fn check(world: &'static dyn World, a: &Args) -> i32 {
     if det_mismatch > 0 {
         return 2;
     }
+    // keep only the selected (shortest) replay per (class, sig)
+    {
+        let keep: HashSet<&String> = viols.values().map(|v| &v.0).collect();
+        if let Ok(rd) = std::fs::read_dir(format!("{}/replays-out", verif_root())) {
+            for e in rd.flatten() {
+                let pth = e.path().to_string_lossy().to_string();
+                if e.file_name().to_string_lossy().starts_with(&format!("{}-", p.id)) && !keep.contains(&pth) {
+                    let _ = std::fs::remove_file(e.path());
+                }
+            }
+        }
+    }
     // classify
     let mut unlisted = 0;
     let mut known_hit = vec![];
